@@ -81,7 +81,16 @@ func decodeVia(kind string, file []byte, exp *refsmf.File) (diff string, track i
 	if kind == "logged" {
 		opts = append(opts, smf.Log(&nullLogger{}))
 	}
-	c = engine.Catch(func() { got, err = smf.ReadFrom(src, opts...) })
+	if kind == "ReadFile" {
+		// the convenience function on a regular file
+		path := os.Getenv("VERIF_WORK") + "/c02-readfile.mid"
+		if werr := os.WriteFile(path, file, 0o644); werr != nil {
+			return "", 0, "", c
+		}
+		c = engine.Catch(func() { got, err = smf.ReadFile(path) })
+	} else {
+		c = engine.Catch(func() { got, err = smf.ReadFrom(src, opts...) })
+	}
 	if c.Panicked {
 		return "panic", -1, c.Value, c
 	}
@@ -397,7 +406,7 @@ func valueSweeps() {
 				}
 				ctx.NontrivialN(1)
 				diff, _, what, c := decode(file, exp)
-				for _, k := range append(sourceKinds, "os.File") {
+				for _, k := range append(sourceKinds, "os.File", "ReadFile") {
 					if diff == "" {
 						ctx.Eval()
 						diff, _, what, c = decodeVia(k, file, exp)
